@@ -30,7 +30,7 @@ CALLS = {"partition": "rpartition", "rpartition": "partition", "split": "rsplit"
 
 FUNC_PROPS = [
     (r"^_split$", ["C02", "C08", "C15"]),
-    (r"^(ReferenceTuple|Reference|NamableReference|NamedReference|Prefix)\.|^_converter_from_validation_info$", ["C15"]),
+    (r"^(ReferenceTuple|Reference|NamableReference|NamedReference|Prefix|Triple)(\.|$)|^_converter_from_validation_info$", ["C15"]),
     (r"^Record\.", ["C04", "C05", "C09"]),
     (r"^_get_duplicate|^DuplicateValueError|^Duplicate", ["C04"]),
     (r"^_get_(prefix_map|reverse_prefix_map|prefix_synmap|pattern_map)$|^Converter\.__init__$", ["C01", "C02", "C04", "C06"]),
